@@ -32,6 +32,10 @@ def run(tier, mode):
         if i % 3 == 0:
             # a colon-first layout with every colon removed (all sections get rejected under sec_colon_required)
             t = P.render(r, P.gen_desc(r, max_groups=1), r.choice(['TRS_desc', 'S_desc_TR'])).replace(':', '')
+            if i % 12 == 6:
+                # the colon the patterns accept BETWEEN the keyword and the number ('Section: 14') is not the colon after the section: still every section rejected
+                import re as _re
+                t = _re.sub(r'\b(Sections?|Secs?\.?|Sects?\.?) (?=\d)', lambda m_: m_.group(1) + ': ', t)
         if r.random() < 0.3:
             t = r.choice(TRIM_EDGES) + t + r.choice(TRIM_EDGES)
         texts.append(t)
@@ -80,7 +84,8 @@ def run(tier, mode):
         else:
             dist['normal'] += 1
         # ---- every section rejected: colon required on colon-less text
-        if has_tr and has_secword and ':' not in t and i % 2 == 0:
+        import re as _re2
+        if has_tr and has_secword and not _re2.search(r'\d\s*:', t) and i % 2 == 0:
             rc_cfg = r.choice(['sec_colon_required', 'sec_colon_required', 'sec_colon_required,sec_within', 'sec_colon_required,segment,sec_within'])
             d2 = H.call(lambda: pytrs.PLSSDesc(t, config=rc_cfg))
             n_or += 1
